@@ -654,9 +654,19 @@ func main() {
 			// refused at start-up (the file is locked) or it runs with ITS parameters — never with the first one's
 			if bt, ok := mercure.VerifHubTransport(hub).(*mercure.BoltTransport); ok && cs.Transport == "bolt" && secondHandlers < c.Scale(6, 60) {
 				secondHandlers++
-				p1, _, sz1, _ := mercure.VerifBoltConfig(bt)
+				p1, b1, sz1, _ := mercure.VerifBoltConfig(bt)
 				wantSize := sz1 + 2
-				text2 := fmt.Sprintf("mercure {\n\tanonymous\n\tpublisher_jwt \"aDiuNYysDgJJAF7U9YqukGjeLbiudJSIDSHf5KkZ\"\n\ttransport bolt {\n\t\tpath %s\n\t\tsize %d\n\t\tbucket_name second\n\t\tcleanup_frequency 1\n\t}\n}", quote(p1), wantSize)
+				// every other time the second handler names the SAME bucket as the running one (a reload that only changes
+				// the size of the window), otherwise another bucket of the same file
+				wantBucket, bucketLine := "second", "bucket_name second"
+				if secondHandlers%2 == 0 {
+					// the same bucket, written the way the first handler's block writes it (or not at all)
+					wantBucket, bucketLine = b1, ""
+					if cs.TBucket != nil {
+						bucketLine = "bucket_name " + quote(*cs.TBucket)
+					}
+				}
+				text2 := fmt.Sprintf("mercure {\n\tanonymous\n\tpublisher_jwt \"aDiuNYysDgJJAF7U9YqukGjeLbiudJSIDSHf5KkZ\"\n\ttransport bolt {\n\t\tpath %s\n\t\tsize %d\n\t\t%s\n\t\tcleanup_frequency 1\n\t}\n}", quote(p1), wantSize, bucketLine)
 				m2 := &mcaddy.Mercure{}
 				var err2 error
 				func() {
@@ -677,10 +687,10 @@ func main() {
 					}
 					if bt2, ok := mercure.VerifHubTransport(mcaddy.VerifHub(m2)).(*mercure.BoltTransport); ok {
 						_, b2, sz2, _ := mercure.VerifBoltConfig(bt2)
-						if sz2 != wantSize || b2 != "second" {
+						if sz2 != wantSize || b2 != wantBucket {
 							for _, key := range []string{"C19", "C10"} {
 								r.Violate(h.Violation{Key: key + ":handler-runs-with-another-handlers-transport-parameters",
-									What: fmt.Sprintf("a second handler configured with size %d and bucket \"second\" on the database file of a running handler was provisioned with size %d and bucket %q:\n%s\n--- while this one was running ---\n%s", wantSize, sz2, b2, text2, text), Replay: rp})
+									What: fmt.Sprintf("a second handler configured with size %d and bucket %q on the database file of a running handler was provisioned with size %d and bucket %q:\n%s\n--- while this one was running ---\n%s", wantSize, wantBucket, sz2, b2, text2, text), Replay: rp})
 							}
 						}
 					}
